@@ -17,7 +17,7 @@ META = {
              "thorough": {"shards": 32, "timeout": 3000, "cases": 120000}},
     "rule": "case = 6-16 operations over 2 folders and fresh file names x predicate x flavour {oo, po} x step gaps; distinct = "
             "distinct op-kind sequence + predicate + flavour; non-trivial = >= 1 request or un-request and >= 1 engine write",
-    "assumptions": ["listing calls are made at quiescent points"],
+    "assumptions": ["the full listing model (local synced / remote-only not synced) is compared at quiescent points; between engine steps only the clause 'every file physically in the local folder is listed as synced' is checked"],
 }
 
 PRED = ("never", "ext", "table")
@@ -121,6 +121,36 @@ def run_case(seed, index, acc=None, count=True):
                         probs.append(("listing_reports_undownloaded_remote_file_as_synced", p))
                     if base not in got:
                         probs.append(("listing_misses_remote_file", p))
+
+    def local_files_listed():
+        """any time, quiet or not: every file that is physically in a local folder must be in that folder's merged listing,
+        reported as synced (the statement's 'every local file')"""
+        w = sim.world
+        for d in sorted(folders):
+            lp = sim.abspath(0, d) if d else sim.roots[0]
+            prev = w.ctx
+            w.ctx = "oracle"
+            try:
+                info = sim.providers[0].info_path(lp)
+                if info is None:
+                    continue
+                from cloudsync.types import DIRECTORY
+                here = [x.name for x in sim.providers[0].listdir(info.oid) if x.otype != DIRECTORY]
+            finally:
+                w.ctx = prev
+            if not here:
+                continue
+            try:
+                listing = list(engine_call(lambda: list(sim.cs.smart_listdir_path(lp))))
+            except ex.CloudException as e:
+                probs.append(("listing_raised", d, type(e).__name__))
+                continue
+            stats["listings_mid_run"] = stats.get("listings_mid_run", 0) + 1
+            got = {i.name: i for i in listing}
+            for n in here:
+                if n not in got or not got[n].is_synced:
+                    probs.append(("listing_does_not_report_a_local_file_as_synced", (d + "/" + n) if d else n, n in got, "mid-run"))
+                    return
 
     try:
         for d in ("da", "db"):
@@ -290,6 +320,10 @@ def run_case(seed, index, acc=None, count=True):
             kinds.append(k)
             for _ in range(rng.randrange(0, 4)):
                 sim.step(rng.choice(("E0", "E1", "S")))
+                if rng.random() < 0.5:
+                    local_files_listed()
+                    if probs:
+                        break
             if rng.random() < 0.35:
                 quiesce_and_check()
         if not probs:
@@ -301,6 +335,7 @@ def run_case(seed, index, acc=None, count=True):
             acc.count("unrequests", stats["unrequests"])
             acc.count("requests_of_files_un_requested_before", stats.get("rerequests", 0))
             acc.count("listings_checked", stats["listings"])
+            acc.count("listings_checked_between_engine_steps", stats.get("listings_mid_run", 0))
             acc.add("predicates", pk)
             acc.add("flavours", flavour)
             writes = len(O.engine_writes(sim))
